@@ -132,10 +132,14 @@ func (m SerializedMessage) Headers() map[string][]byte {
 		n += 2
 		key := string(m[n : n+int32(keySize)])
 		n += int32(keySize)
-		valueSize := encoding.Uint32(m[n:])
+		// A size of -1 denotes a nil value, as for the key and the value.
+		valueSize := int32(encoding.Uint32(m[n:]))
 		n += 4
-		value := m[n : n+int32(valueSize)]
-		n += int32(valueSize)
+		var value []byte
+		if valueSize != -1 {
+			value = m[n : n+valueSize]
+			n += valueSize
+		}
 		headers[key] = value
 	}
 	return headers
